@@ -65,6 +65,7 @@ type logqIn struct {
 	Stages []stageIn   `json:"stages"`
 	// Queries: optional list of alternative pipelines evaluated on the same data (C19 families); when empty, Stages is used.
 	Queries [][]stageIn `json:"queries"`
+	Fam     string      `json:"fam"` // C19: "fg" | "pred" (which relations the family of queries must satisfy)
 	Caps    []CapsIn    `json:"caps"`
 	Limit   int         `json:"limit"`
 	Start   []int       `json:"start"`
@@ -432,7 +433,122 @@ func genLogq(r *rand.Rand, mode string) logqIn {
 func (famLogq) Gen(r *rand.Rand, n int, opt map[string]string) []any {
 	out := make([]any, 0, n)
 	for i := 0; i < n; i++ {
-		out = append(out, genLogq(r, opt["mode"]))
+		if opt["mode"] == "algebra" {
+			out = append(out, genAlgebra(r))
+		} else {
+			out = append(out, genLogq(r, opt["mode"]))
+		}
 	}
 	return out
+}
+
+// arbitrary valid Go regular expressions (well outside the algebra the specification can interpret)
+var wildRegexes = []string{`\d+`, `^a`, `b$`, `(?i)A`, `a{2,3}`, `\bk\b`, `[[:alpha:]]+=`, `.*`, `^$`, `(a|b)+c?`, `[^=]+=[^ ]+`, `\x61`, `(?s).`, `\S+\s\S+`,
+	`k=(a|b)`, `\pL`, `[\x00-\x1f]`, `a*?b`, `(?:)`, `=\d`, `^.{0,3}$`, `\.`, `e(rr)?`, `(?m)^x`}
+
+func negOp(op string) string {
+	return map[string]string{"eq": "neq", "neq": "eq", "re": "nre", "nre": "re"}[op]
+}
+
+func genFilterStage(r *rand.Rand) stageIn {
+	eps, _ := json.Marshal(&ReAST{T: "eps"})
+	if r.Intn(2) == 0 {
+		st := stageIn{T: "line", Op: allOps[r.Intn(4)], Re: eps}
+		if st.Op == "eq" || st.Op == "neq" {
+			n := r.Intn(4)
+			v := make(Ints, n)
+			for i := range v {
+				if r.Intn(3) == 0 {
+					v[i] = r.Intn(256)
+				} else {
+					v[i] = int("ab=k 17e"[r.Intn(8)])
+				}
+			}
+			st.Val = v
+		} else {
+			st.Val = B(pick(r, wildRegexes))
+		}
+		return st
+	}
+	p := &predIn{T: "m", Label: B(pick(r, append(lqKeys, "app", "msg", "nolabel"))), Op: allOps[r.Intn(4)], Re: eps}
+	if p.Op == "eq" || p.Op == "neq" {
+		p.Val = B(pick(r, append(lqWords, lqNums...)))
+	} else {
+		p.Val = B(pick(r, wildRegexes))
+	}
+	return stageIn{T: "label", Pred: p}
+}
+
+func negStage(st stageIn) stageIn {
+	if st.T == "line" {
+		st.Op = negOp(st.Op)
+		return st
+	}
+	p := *st.Pred
+	p.Op = negOp(p.Op)
+	st.Pred = &p
+	return st
+}
+
+func cat(base []stageIn, more ...stageIn) []stageIn {
+	out := make([]stageIn, 0, len(base)+len(more))
+	out = append(out, base...)
+	return append(out, more...)
+}
+
+func genAlgebra(r *rand.Rand) logqIn {
+	in := logqIn{Sel: []matcherIn{}, Stages: []stageIn{}, Limit: -1, Start: []int{1699999000, 0}, End: []int{1700009000, 0},
+		Caps: []CapsIn{{Label: []string{}, Line: []string{}}}}
+	if r.Intn(3) == 0 {
+		in.Caps = []CapsIn{{Label: allOps, Line: allOps}}
+	}
+	n := 1 + r.Intn(15)
+	in.Recs = genRecs(r, n, true)
+	// arbitrary bytes in some lines and attribute values
+	for i := range in.Recs {
+		if r.Intn(5) == 0 {
+			m := 1 + r.Intn(6)
+			line := make([]int, m)
+			for k := range line {
+				line[k] = r.Intn(256)
+			}
+			in.Recs[i].Line, in.Recs[i].Doc = line, [][2][]int{}
+		}
+	}
+	var base []stageIn
+	for k := r.Intn(4); k > 0; k-- {
+		var st stageIn
+		switch r.Intn(4) {
+		case 0:
+			st = stageIn{T: "logfmt"}
+		case 1:
+			st = stageIn{T: []string{"drop", "keep"}[r.Intn(2)], Labels: IntsList{B(pick(r, lqKeys)), B("msg")}}
+		default:
+			st = genFilterStage(r)
+		}
+		if k := len(base); k > 0 && (base[k-1].T == "drop" || base[k-1].T == "keep") && st.T == "line" && (st.Op == "neq" || st.Op == "nre") {
+			continue
+		}
+		base = append(base, st)
+	}
+	// a family must not start its filter with != / !~ right after drop/keep (that text is a drop matcher)
+	if k := len(base); k > 0 && (base[k-1].T == "drop" || base[k-1].T == "keep") {
+		base = append(base, stageIn{T: "logfmt"})
+	}
+	eps, _ := json.Marshal(&ReAST{T: "eps"})
+	if r.Intn(3) != 0 {
+		f, g := genFilterStage(r), genFilterStage(r)
+		in.Fam = "fg"
+		in.Queries = [][]stageIn{cat(base), cat(base, f), cat(base, negStage(f)), cat(base, f, g), cat(base, g, f), cat(base, f, f), cat(base, g),
+			cat(base, stageIn{T: "line", Op: "eq", Val: Ints{}, Re: eps})}
+	} else {
+		a, b := genPred(r, 1), genPred(r, 1)
+		par := func(p *predIn) *predIn { return &predIn{T: "paren", A: p} }
+		in.Fam = "pred"
+		in.Queries = [][]stageIn{
+			cat(base, stageIn{T: "label", Pred: &predIn{T: "and", A: par(a), B: par(b)}}),
+			cat(base, stageIn{T: "label", Pred: &predIn{T: "or", A: par(a), B: par(b)}}),
+			cat(base, stageIn{T: "label", Pred: a}), cat(base, stageIn{T: "label", Pred: b}), cat(base)}
+	}
+	return in
 }
